@@ -25,7 +25,7 @@ static int deny_getrandom(void) {
 static uint64_t drawn[16][NDRAW][2]; static int fallback_mode;
 static int cmp_u128(const void *a, const void *b) { return memcmp(a, b, 16); }
 
-#define NOPS 14
+#define NOPS 16
 #define MAXT 16
 static unsigned char expect[MAXT][NOPS][64];
 static int results[MAXT][NOPS];
@@ -51,6 +51,10 @@ static void ops(int t, unsigned char out[NOPS][64]) {
     crypto_pwhash(out[11], 32, (const char *) msg, 8, nonce, crypto_pwhash_OPSLIMIT_MIN, crypto_pwhash_MEMLIMIT_MIN, crypto_pwhash_ALG_ARGON2ID13);
     crypto_scalarmult_ristretto255_base(out[12], key + 32 - 0); crypto_core_ed25519_scalar_reduce(out[12] + 32, key);
     crypto_kdf_derive_from_key(out[13], 64, (uint64_t) t, "verifctx", key);
+    /* variable-base multiplications on thread-specific points (per-call tables of multiples) and X25519 */
+    { unsigned char pt[32], rp[32], h[64]; crypto_generichash(h, 64, key, 64, NULL, 0); crypto_core_ed25519_from_uniform(pt, h); crypto_core_ristretto255_from_hash(rp, h);
+      if (crypto_scalarmult_ed25519_noclamp(out[14], nonce, pt) != 0) out[14][0] ^= 1; if (crypto_scalarmult_ed25519(out[14] + 32, key, pt) != 0) out[14][33] ^= 1;
+      if (crypto_scalarmult_ristretto255(out[15], key + 16, rp) != 0) out[15][0] ^= 1; if (crypto_scalarmult(out[15] + 32, key, pk2) != 0) out[15][33] ^= 1; }
 }
 static void *worker(void *arg) {
     int t = (int) (intptr_t) arg; unsigned char out[NOPS][64];
